@@ -1,6 +1,7 @@
 package main
 
 import (
+	"bufio"
 	"bytes"
 	"context"
 	"fmt"
@@ -48,6 +49,8 @@ func drain(n nexter) ([]Blk, error) {
 	}
 }
 
+var plainFlip int
+
 // runReader pushes input through one scanning reader of the real library.
 func runReader(rd string, o readOpts, input []byte) string {
 	var roots []cid.Cid
@@ -56,7 +59,14 @@ func runReader(rd string, o readOpts, input []byte) string {
 	case "br-seek", "br-plain":
 		var r io.Reader = bytes.NewReader(input)
 		if rd == "br-plain" {
-			r = &plainReader{r}
+			// alternately a bare io.Reader and one that also offers ReadByte (bufio over a pipe):
+			// both are plain streams for the library and for the model
+			plainFlip++
+			if plainFlip%2 == 0 {
+				r = bufio.NewReaderSize(&plainReader{r}, 16)
+			} else {
+				r = &plainReader{r}
+			}
 		}
 		br, err := carv2.NewBlockReader(r, o.opts()...)
 		if err != nil {
